@@ -43,6 +43,9 @@ func NewResponse(s *openapi3.Response, components Components, opts SchemaOptions
 	}
 
 	out.Links, err = NewMapRefSelfSource[Link, *openapi3.LinkRef](s.Links, func(lr *openapi3.LinkRef, _ Sourcer[Link]) (ref string, _ Ref[Link], _ error) {
+		if lr == nil {
+			return "", nil, fmt.Errorf("link is not defined")
+		}
 		if lr.Ref != "" {
 			return lr.Ref, nil, nil
 		}
